@@ -601,7 +601,7 @@ fn vp09_s() -> impl Strategy<Value = Vp09S> {
 }
 
 pub fn esds_s() -> impl Strategy<Value = EsdsS> {
-    ((anyver(), flags24(), u16v(), u8v(), 0u8..64, any::<bool>()), (0u32..0x100_0000, u32v(), u32v(), prop_oneof![4 => 0u8..=30, 1 => 32u8..=94], 0u8..=14, 0u8..16)).prop_map(|((version, flags, es_id, object_type_indication, stream_type, up_stream), (buffer_size_db, max_bitrate, avg_bitrate, profile, freq_index, chan_conf))| EsdsS { version, flags, es_id, object_type_indication, stream_type, up_stream, buffer_size_db, max_bitrate, avg_bitrate, profile, freq_index, chan_conf })
+    ((anyver(), flags24(), u16v(), u8v(), 0u8..64, any::<bool>()), (0u32..0x100_0000, u32v(), u32v(), prop_oneof![8 => 0u8..=30, 1 => Just(32u8), 1 => Just(94u8), 2 => 32u8..=94], 0u8..=14, 0u8..16)).prop_map(|((version, flags, es_id, object_type_indication, stream_type, up_stream), (buffer_size_db, max_bitrate, avg_bitrate, profile, freq_index, chan_conf))| EsdsS { version, flags, es_id, object_type_indication, stream_type, up_stream, buffer_size_db, max_bitrate, avg_bitrate, profile, freq_index, chan_conf })
 }
 
 fn tfhd_s() -> impl Strategy<Value = TfhdS> {
